@@ -2012,6 +2012,11 @@ static void build_expr(WorkList *list, ASTNode *expr, Environment *env) {
                     emit_literal(list, "gc_wrap_external(");
                 }
 
+                /* str_length maps to strlen(), whose size_t result would turn a comparison with a negative int
+                 * into an unsigned comparison: nanolang's int is int64_t */
+                bool cast_to_int = (strcmp(mapped_name, "strlen") == 0);
+                if (cast_to_int) emit_literal(list, "((int64_t)");
+
                 emit_literal(list, mapped_name);
                 emit_literal(list, "(");
 
@@ -2044,6 +2049,7 @@ static void build_expr(WorkList *list, ASTNode *expr, Environment *env) {
                 }
 
                 emit_literal(list, ")");
+                if (cast_to_int) emit_literal(list, ")");
 
                 /* If wrapping needed, close gc_wrap_external with finalizer */
                 if (needs_wrapping) {
